@@ -6,10 +6,10 @@ import (
 
 func init() {
 	register(&Property{
-		ID: "C18",
+		ID:          "C18",
 		Explanation: "Decides structural necessary conditions of role separation: the raft handler table has no election/vote-response cell for non-voting members and witnesses and no propose/read/log-query cell for witnesses; candidacy and leadership transitions are reachable only from cells of voter roles; the voting-member count, quorum, the match array used for commit and the check-quorum count are built from remotes+witnesses and never read nonVotings; entries sent to a witness come from the metadata-stripping function (which keeps payloads only for config changes) and a witness's InstallSnapshot goes through the witness-snapshot constructor; every request-accepting entry of the node refuses a witness; a witness never saves a state-machine snapshot. Does not decide behaviour of mixed-role clusters over schedules.",
-		NotCovered: "timing of promotion/removal versus in-flight messages; that a removed leader steps down within bounded time",
-		Run:        runC18,
+		NotCovered:  "timing of promotion/removal versus in-flight messages; that a removed leader steps down within bounded time",
+		Run:         runC18,
 	})
 }
 
@@ -242,7 +242,9 @@ func runC18(e *Engine, r *Report) {
 			if !ok {
 				return
 			}
-			if n, ok := ld.Type().(interface{ Obj() interface{ Name() string } }); ok {
+			if n, ok := ld.Type().(interface {
+				Obj() interface{ Name() string }
+			}); ok {
 				_ = n
 			}
 			if ld.Type().String() != "github.com/lni/dragonboat/v4/raftpb.Entry" {
@@ -349,31 +351,8 @@ func runC18(e *Engine, r *Report) {
 			"snapshot save returns only when the replica is not a witness", "snapshot save can complete on a witness")
 	}
 	// ---- a removed replica stops campaigning: the election timer is gated by selfRemoved()
-	selfRemoved := r.need(raftT + "selfRemoved")
-	nlt := r.need(raftT + "nonLeaderTick")
-	if selfRemoved != nil && nlt != nil {
-		electionC := r.needConst("raftpb", "Election")
-		n = 0
-		forEachInstr(nlt, func(in ssa.Instruction) {
-			st, ok := in.(*ssa.Store)
-			if !ok {
-				return
-			}
-			f, _, ok := fieldOfAddr(st.Addr)
-			if !ok || f != msgType || !constV(electionC)(st.Val) {
-				return
-			}
-			n++
-			reqs := []Req{reqBool("selfRemoved() is false", e.callV(selfRemoved), false)}
-			for _, pn := range []string{"isNonVoting", "isWitness"} {
-				if pred := r.need(raftT + pn); pred != nil {
-					reqs = append(reqs, reqBool(pn+"() is false", e.callV(pred), false))
-				}
-			}
-			r.guard("GD-removed-no-campaign", "Election message built in "+fname(nlt), in, reqs...)
-		})
-		r.floor("GD-removed-no-campaign", n, 1)
-	}
+	ruleElectionMessageGuard(e, r)
+	ruleHintVoting(e, r)
 }
 
 func itoa(i int) string {
